@@ -4,12 +4,12 @@ seeded/_staging/*/{confirm,detect}.json, ledger/*.json and known_findings.json."
 import json, glob, os, re
 root = '/verif'
 rows = []
-for d in sorted(glob.glob(root + '/seeded/_staging/C*-m*') + glob.glob(root + '/seeded/_staging3/C*-r*') + glob.glob(root + '/seeded/_staging4/C*-s*') + glob.glob(root + '/seeded/_staging5/C*-t*')):
+for d in sorted(glob.glob(root + '/seeded/_staging/C*-m*') + glob.glob(root + '/seeded/_staging3/C*-r*') + glob.glob(root + '/seeded/_staging4/C*-s*') + glob.glob(root + '/seeded/_staging5/C*-t*') + glob.glob(root + '/seeded/_staging6/C*-u*')):
     name = os.path.basename(d)
     c = json.load(open(d + '/confirm.json')) if os.path.exists(d + '/confirm.json') else {}
     det = json.load(open(d + '/detect.json')) if os.path.exists(d + '/detect.json') else {}
     notes = open(d + '/notes.md').read().splitlines()[0].lstrip('# ').strip() if os.path.exists(d + '/notes.md') else ''
-    notes = re.sub(r'^C\d+[-\s/]*[mrs]\d\s*[—:-]+\s*', '', notes)
+    notes = re.sub(r'^C\d+[-\s/]*[mrstu]\d\s*[—:-]+\s*', '', notes)
     conf = 'yes' if (c.get('applies') and c.get('builds') and not c.get('stable_tests_not_passing') and c.get('demo_with_change') == 'FAIL' and c.get('demo_without') == 'PASS') else \
            ('no: ' + ', '.join(k + '=' + str(c.get(k)) for k in ('applies', 'builds', 'demo_with_change', 'demo_without') if c.get(k) not in (True, None) and not (k == 'demo_with_change' and c.get(k) == 'FAIL') and not (k == 'demo_without' and c.get(k) == 'PASS')) if c else 'not run')
     caught = ', '.join(det.get('caught_by') or []) or ('—' if det else 'not run')
